@@ -131,6 +131,22 @@ def _covariance(F, R):
         except (NotPolynomial, AnalysisBroken) as ex:
             R.soft_broken("P2 %s: %s" % (nm, str(ex)[:120]))
 
+    # -- P5: the sign-carrying parameters are inputs only ---------------------------------------------------------------------
+    R.rule("P5", "no spectrum routine (calculate_M*, calculate_DRbar_masses, reorder_*) writes a sign-carrying Lagrangian parameter "
+                 "(mu, M1, M2, M3, A_f, T_f): a mass calculation that stores e.g. |M3| back would make the second evaluation on the "
+                 "same object see another sign than the first", 30)
+    from .rules_c16 import FieldFlow
+    FW5 = FieldFlow(F)
+    for k5, f5 in sorted(F.functions.items()):
+        if not re.match(r"^gm2calc::MSSMNoFV_onshell_mass_eigenstates::(calculate_\w+|reorder_\w+|solve_ewsb\w*)$", f5["name"]):
+            continue
+        w5 = {x.split("::")[-1] for x in FW5.direct_writes(f5["body"])}
+        bad5 = sorted(w5 & set(FLIPPED_FIELDS))
+        R.check("P5", not bad5, "%s writes no sign-carrying parameter" % f5["name"].split("::")[-1], F.loc(f5),
+                "%s overwrites %s: the Lagrangian parameter changes as a side effect of computing the spectrum (history dependence; "
+                "the flipped point is no longer the flipped point on the second evaluation)" % (f5["name"].split("::")[-1], ", ".join(bad5)),
+                key="P5|" + f5["name"].split("::")[-1])
+
     # -- P3 / P4: the formulas ----------------------------------------------------------------------------------------------------
     R.rule("P3", "exact one-loop, photonic two-loop and 2L(a) contributions are invariant under the substitution the covariance induces on the "
                  "decomposition outputs (ZN -> ZN iS, UM -> UM is, UP -> UP is, ZM, ZT, ZB, ZTau -> Z t; explicit mu, A_f negated; masses and the resummed Yukawa couplings unchanged)", 6)
